@@ -8,6 +8,7 @@
 //! configuration).  The output holds one JSON object per executed operation:
 //! `{"op":…, "ret":…, "st":…}` — the operation, what the code returned, and the projected state
 //! after it.  A panic of the code under test is recorded as `"ret":{"panic":"…"}`.
+mod codec;
 mod handler;
 mod mutate;
 mod seq;
@@ -33,6 +34,8 @@ fn main() {
                 "query" => seq::query::replay(&behaviours, &mut out),
                 "handler" => handler::run_behaviours(&behaviours, &mut out),
                 "svc" => svc::run_behaviours(&behaviours, &mut out),
+                "pcodec" => codec::packet::replay(&behaviours, &mut out),
+                "rcodec" => codec::rpc::replay(&behaviours, &mut out),
                 _ => Err(format!("unknown component {comp}")),
             }
         }
@@ -44,6 +47,8 @@ fn main() {
                 "lru" => seq::lru::drive(seed, n, &mut out),
                 "kb" => seq::kb::drive(seed, n, &mut out),
                 "query" => seq::query::drive(seed, n, &mut out),
+                "pcodec" => codec::packet::drive(seed, n, &mut out),
+                "rcodec" => codec::rpc::drive(seed, n, &mut out),
                 _ => Err(format!("unknown component {comp}")),
             }
         }
